@@ -361,7 +361,9 @@ func execBFS(t *testing.T, w WL, cfg simrt.Config) simh.Outcome {
 		s.Spawn(func() {
 			retErr = traversal.New(db, w.Workers).BreadthFirst(ctx, traversal.Plan{Root: mkNode(w.Root), Driver: drv})
 			returned = true
-			cancel()
+			// The caller's context is deliberately NOT cancelled here: whatever BreadthFirst started must
+			// finish on its own ("leaves no goroutine behind"), not because the caller happens to cancel
+			// afterwards. (A deadline context ends by itself on the simulated clock.)
 		})
 	})
 	o := simh.Outcome{Res: res, Counters: counters}
